@@ -88,7 +88,7 @@ static void check(const Case &c) {
         if (!ref::valid_cell(h) || ref::res_of(h) != c.res || h == poleN || h == poleS) { DISCARD(); return; }
         LatLng g;
         cellToLatLng(h, &g);
-        if (fabs(g.lat) > 1.3) { DISCARD(); return; }  // footprint must stay away from the poles
+        if (fabs(g.lat) > gen::PI / 2 - 1.6 * gen::cellWidth(c.res)) { DISCARD(); return; }  // footprint must not reach a pole: neither the pole cell nor its ring
     }
     {
         // stated narrowing: the set must fit into less than 162 degrees of longitude (no outline around a pole or around the globe;
